@@ -101,6 +101,9 @@ def run(ck, tier):
             uniq.append(v)
     rng = random.Random(vplib.seed())
     rng.shuffle(uniq)
+    if len(uniq) > 400000:       # the triples are sampled (seeded); pairs and self pairs are all kept
+        uniq = [v for v in uniq if len(v['preds']) < 2] + [v for v in uniq if len(v['preds']) >= 2][:350000]
+        rng.shuffle(uniq)
     outs = run_compose(sd, uniq, 2)
     if len(outs) != len(uniq):
         raise Inconclusive('harness returned %d results for %d compositions' % (len(outs), len(uniq)))
@@ -122,10 +125,10 @@ def run(ck, tier):
             only_c = sorted(set(d[0]) - set(d[1]))
             only_r = sorted(set(d[1]) - set(d[0]))
             ck.violation(site,
-                         '%s %r checked after/with %s (%s): its diagnostics differ from those in the reduced workflow. '
+                         '%s %r checked after/with %s (%s, header %s, config %s): its diagnostics differ from those in the reduced workflow. '
                          'only in the composed workflow: %s; only in the reduced workflow: %s'
-                         % (v['lvl'], v['subj'], v['preds'], v['place'] or 'position %d' % v['pos'], only_c, only_r),
-                         {'kind': 'compose', 'lvl': v['lvl'], 'hdr': v['hdr'], 'subj': v['subj'], 'preds': v['preds'],
+                         % (v['lvl'], v['subj'], v['preds'], v['place'] or 'position %d' % v['pos'], v['hdr'], v.get('cfg', 'none'), only_c, only_r),
+                         {'kind': 'compose', 'lvl': v['lvl'], 'hdr': v['hdr'], 'cfg': v.get('cfg', 'none'), 'subj': v['subj'], 'preds': v['preds'],
                           'states': v['states'], 'sstate': v.get('sstate', ''), 'pos': v['pos'], 'place': v['place'], 'tools': v['tools'],
                           'pred': v['preds'][0], 'only_composed': only_c, 'only_reduced': only_r,
                           'src_composed': o['src_composed'], 'src_reduced': o['src_reduced']})
@@ -226,7 +229,7 @@ def run(ck, tier):
         'absolute positions quoted inside messages ("line:N,col:M") are line offsets and are masked',
         'shellcheck / pyflakes are stand-ins that report the shell and a hash of the script they received',
         'catalogue: %d job, %d step and %d expression constructs named in Compose.tla, texts in harness compose.go'
-        % (47, 16, 19)]
+        % (60, 16, 19)]
 
 
 def replay(path):
@@ -241,6 +244,7 @@ def replay(path):
         return 1 if o['changed'] else 0
     if rp['kind'] == 'compose':
         v = {k: rp[k] for k in ('lvl', 'hdr', 'subj', 'preds', 'states', 'pos', 'place', 'tools')}
+        v['cfg'] = rp.get('cfg', 'none')
         o = run_compose(sd, [v], 4)[0]
         print(o['src_composed'])
         print('--- reduced ---')
